@@ -68,12 +68,31 @@ type vPartState struct {
 	leaderEpoch, epoch        uint64
 	isr, replicas             string
 	paused, readonly, waiting bool
+	occ                       bool // optimistic concurrency control, as the partition's commit log enforces it
 }
 
 type vMetaState struct {
 	streams []string // "name subject"
 	parts   []vPartState
 	groups  []string
+}
+
+// vConfigText renders the per-stream configuration (the fields the harness sets).
+func vConfigText(c *proto.StreamConfig) string {
+	if c == nil {
+		return "config=none"
+	}
+	t := "config:"
+	if c.OptimisticConcurrencyControl != nil {
+		t += fmt.Sprintf(" occ=%v", c.OptimisticConcurrencyControl.Value)
+	}
+	if c.RetentionMaxMessages != nil {
+		t += fmt.Sprintf(" retention.messages=%d", c.RetentionMaxMessages.Value)
+	}
+	if c.MinIsr != nil {
+		t += fmt.Sprintf(" minisr=%d", c.MinIsr.Value)
+	}
+	return t
 }
 
 // vCanon extracts the externally visible metadata of a server in canonical order.
@@ -83,7 +102,7 @@ func vCanon(s *Server) vMetaState {
 		if st.IsTombstoned() {
 			continue // marked deleted
 		}
-		out.streams = append(out.streams, st.GetName()+" "+st.GetSubject())
+		out.streams = append(out.streams, st.GetName()+" "+st.GetSubject()+" "+vConfigText(st.GetConfig()))
 		for _, p := range st.GetPartitions() {
 			leader, lepoch := p.GetLeader()
 			isr := append([]string{}, p.GetISR()...)
@@ -116,7 +135,7 @@ func vCanon(s *Server) vMetaState {
 			vAssert(strings.Join(liveReps, ",") == strings.Join(reps, ","), "GetReplicas reports the live replica set")
 			out.parts = append(out.parts, vPartState{key: fmt.Sprintf("%s/%d", st.GetName(), p.Id), leader: leader, leaderEpoch: lepoch,
 				epoch: p.GetEpoch(), isr: strings.Join(isr, ","), replicas: strings.Join(reps, ","),
-				paused: p.IsPaused(), readonly: p.IsReadonly(), waiting: waiting})
+				paused: p.IsPaused(), readonly: p.IsReadonly(), waiting: waiting, occ: p.log.IsConcurrencyControlEnabled()})
 		}
 	}
 	for _, g := range s.metadata.GetConsumerGroups() {
@@ -193,6 +212,7 @@ func vSameCanon(a, b vMetaState, who string) {
 		vAssert(x.replicas == y.replicas, who+": same replicas")
 		vAssert(x.paused == y.paused, who+": same paused flag")
 		vAssert(x.readonly == y.readonly, who+": same read-only flag (as the partition log enforces it)")
+		vAssert(x.occ == y.occ, who+": same optimistic-concurrency-control setting (as the partition log enforces it)")
 	}
 }
 
@@ -213,8 +233,15 @@ func vDrawOp(kinds int) *proto.RaftLog {
 	st := streams[vChoose(2)]
 	switch vChoose(kinds) {
 	case 0:
+		// stream "a" carries its own configuration (optimistic concurrency
+		// control, a retention limit, a minimum ISR), stream "b" none
+		var cfg *proto.StreamConfig
+		if st == "a" {
+			cfg = &proto.StreamConfig{OptimisticConcurrencyControl: &proto.NullableBool{Value: true},
+				RetentionMaxMessages: &proto.NullableInt64{Value: 7}, MinIsr: &proto.NullableInt32{Value: 2}}
+		}
 		return &proto.RaftLog{Op: proto.Op_CREATE_STREAM, CreateStreamOp: &proto.CreateStreamOp{Stream: &proto.Stream{
-			Name: st, Subject: "subj." + st, CreationTimestamp: 1000,
+			Name: st, Subject: "subj." + st, CreationTimestamp: 1000, Config: cfg,
 			Partitions: []*proto.Partition{{Stream: st, Subject: "subj." + st, Id: 0, ReplicationFactor: 3,
 				Replicas: []string{"r1", "r2", "r3"}, Isr: []string{"r1", "r2", "r3"}, Leader: "r1"}}}}}
 	case 1:
